@@ -75,7 +75,7 @@ def oracle(c, r):
         return ('internal-error', 'internal error %d leaked' % d['err'])
     if cls == 'looks-successful':
         return ('looks-successful', 'a response handed back by the decorator carries no failure flag')
-    base = K(c.entry, [1, 1, 1] + c.ints[3:], c.blobs)
+    base = K(c.entry, c.ints[:1] + [1, 1, 1] + c.ints[4:], c.blobs)
     rb = cl.run_history_case(base)
     db = cl.parse_calls(rb, 1)[0][0]
     cb = classify(db)
